@@ -4,10 +4,12 @@ import "github.com/resonatehq/resonate/internal/verif/runner"
 
 var Registry = map[string]func() *runner.Spec{}
 
-func scenarioJobs(f func(tier string) []*Scenario) func(tier string) []runner.Job {
+func scenarioJobs(prop string, f func(tier string) []*Scenario) func(tier string) []runner.Job {
 	return func(tier string) []runner.Job {
 		var jobs []runner.Job
+		known := runner.KnownSigs(prop)
 		for _, sc := range f(tier) {
+			sc.Known = known
 			jobs = append(jobs, &ScenarioJob{Sc: sc})
 		}
 		return jobs
@@ -24,7 +26,7 @@ func init() {
 	Registry["C01"] = func() *runner.Spec {
 		return &runner.Spec{
 			Property: "C01", Engine: "kexplore", Level: "model_checking",
-			Jobs:   scenarioJobs(C01Scenarios),
+			Jobs:   scenarioJobs("C01", C01Scenarios),
 			Rule:   "every interleaving (state-key pruned, unbounded preemptions) of the store/router/sender submissions of 2-3 concurrent requests on one promise id with the time-out sweep, a clock step onto the deadline, <=1 injected before/after-commit failure and <=1 crash, from 5 setup states; distinct = distinct (responses, final database) vectors per scenario",
 			Assume: engineAAssume, QuickS: 120, ThoroughS: 1500,
 		}
